@@ -45,7 +45,7 @@ def shape(rng, prev_close, style):
     dec = style == "decimal"
     step = (lambda: rng.choice([0.5, 1, 1.5, 2])) if dec else (lambda: rng.randint(1, 3))
     kind = rng.random()
-    if style == "flat" or kind < 0.08:
+    if style == "flat" or (kind < 0.08 and style not in ("inside", "repeat")):
         o = c = h = l = prev_close
     elif style == "up":
         o = prev_close
@@ -84,8 +84,37 @@ def shape(rng, prev_close, style):
     return o, h, l, c, v
 
 
+def gen_inside(rng, n, repeat=False):
+    """a wide first candle followed by inside bars (each high <= previous high, each low >= previous
+    low; real range but no new high or low), or by exact repeats of a non-flat candle"""
+    lo, hi = rng.randint(6, 10), rng.randint(20, 26)
+    o = rng.randint(lo + 1, hi - 1)
+    c = rng.randint(lo + 1, hi - 1)
+    out = [(o, hi, lo, c, rng.choice([1, 2, 5, 8]))]
+    for _ in range(n - 1):
+        po, ph, pl, pc, _v = out[-1]
+        if repeat:
+            out.append((po, ph, pl, pc, rng.choice([0, 1, 2, 5, 8])))
+            continue
+        nh = ph - rng.choice([0, 0, 1]) if ph - pl > 3 else ph
+        nl = pl + rng.choice([0, 0, 1]) if nh - pl > 3 else pl
+        o = pc
+        c = rng.randint(nl, nh)
+        o = min(max(o, nl), nh)
+        out.append((o, nh, nl, c, rng.choice([0, 1, 2, 5, 8])))
+    return out
+
+
 def gen_prices(rng, n, style="walk"):
-    """list of (o,h,l,c,v); style mixes: walk | flat | up | down | zero_vol | decimal | mixed"""
+    """list of (o,h,l,c,v); style mixes: walk | flat | up | down | zero_vol | decimal | mixed |
+    inside | repeat | inside_then_walk"""
+    if style in ("inside", "repeat"):
+        return gen_inside(rng, n, repeat=style == "repeat")
+    if style == "inside_then_walk":
+        k = max(2, n // 2)
+        head = gen_inside(rng, k, repeat=rng.random() < 0.5)
+        tail = gen_prices(rng, n - k, "walk")
+        return head + tail
     out = []
     close = _price(rng, style)
     i = 0
